@@ -14,12 +14,25 @@
 #define STYPES(X) X(6, int8_t) X(7, int16_t) X(8, int32_t) X(9, int64_t) X(10, intmax_t)
 
 /* mode 0: no bounds (unsigned, float); 1: bounds typed intmax_t; 2: bounds typed uintmax_t */
+/*
+ * Macro arguments are expressions, not just identifiers: in half of the calls
+ * (those with an odd string length) min, max, base and trailing are handed over
+ * as conditional expressions without parentheses, the loosest-binding form a
+ * caller can write as one argument.
+ */
+static volatile int yes = 1;
+
+static int shim_parsenum_int_expr(int, int, const char *, int64_t, int64_t, int, int, int, uint64_t *, int *);
+
 int
 shim_parsenum_int(int type, int mode, const char * s, int64_t mn, int64_t mx,
     int base, int trailing, int ex, uint64_t * out, int * err)
 {
 	int rc = -99;
 	uint64_t umn = (uint64_t)mn, umx = (uint64_t)mx;
+
+	if (strlen(s) & 1)
+		return (shim_parsenum_int_expr(type, mode, s, mn, mx, base, trailing, ex, out, err));
 
 	switch (type) {
 #define UCASE(n, T) case n: { T x = 0;						\
@@ -30,6 +43,33 @@ shim_parsenum_int(int type, int mode, const char * s, int64_t mn, int64_t mx,
 	UTYPES(UCASE)
 #define SCASE(n, T) case n: { T x = 0;						\
 	rc = ex ? PARSENUM_EX(&x, s, mn, mx, base, trailing) : PARSENUM(&x, s, mn, mx); \
+	*err = errno; *out = (uint64_t)(int64_t)x; break; }
+	STYPES(SCASE)
+	default:
+		abort();
+	}
+	return (rc);
+}
+
+static int
+shim_parsenum_int_expr(int type, int mode, const char * s, int64_t mn, int64_t mx,
+    int base, int trailing, int ex, uint64_t * out, int * err)
+{
+	int rc = -99;
+	uint64_t umn = (uint64_t)mn, umx = (uint64_t)mx;
+
+
+	switch (type) {
+#undef UCASE
+#define UCASE(n, T) case n: { T x = 0;						\
+	if (mode == 0) rc = ex ? PARSENUM_EX(&x, s, yes ? base : 10, yes ? trailing : 0) : PARSENUM(&x, s); \
+	else if (mode == 1) rc = ex ? PARSENUM_EX(&x, s, yes ? mn : 0, yes ? mx : 0, yes ? base : 10, yes ? trailing : 0) : PARSENUM(&x, s, yes ? mn : 0, yes ? mx : 0); \
+	else rc = ex ? PARSENUM_EX(&x, s, yes ? umn : 0, yes ? umx : 0, yes ? base : 10, yes ? trailing : 0) : PARSENUM(&x, s, yes ? umn : 0, yes ? umx : 0); \
+	*err = errno; *out = (uint64_t)x; break; }
+	UTYPES(UCASE)
+#undef SCASE
+#define SCASE(n, T) case n: { T x = 0;						\
+	rc = ex ? PARSENUM_EX(&x, s, yes ? mn : 0, yes ? mx : 0, yes ? base : 10, yes ? trailing : 0) : PARSENUM(&x, s, yes ? mn : 0, yes ? mx : 0); \
 	*err = errno; *out = (uint64_t)(int64_t)x; break; }
 	STYPES(SCASE)
 	default:
